@@ -302,7 +302,21 @@ func PutVmsa(v *spb.VmcbSaveArea, data []byte) error {
 	}
 	binary.LittleEndian.PutUint64(data[0x3E8:0x3F0], v.Xcr0)
 
-	// SEV-ES fields that follow are all zero at launch.
+	// SEV-ES fields that follow are all zero at launch. Refuse a VMSA that says otherwise rather than
+	// measuring a page that differs from the one described.
+	if len(v.ValidBitmap) != 0 {
+		if err := checkMbz("valid_bitmap", v.ValidBitmap, 0x3F0, 0x400); err != nil {
+			return err
+		}
+	}
+	if v.X87StateGpa != 0 {
+		return fmt.Errorf("uint64 field x87_state_gpa for byte range 0x400:0x408 is not zero")
+	}
+	if len(v.Reserved_12) != 0 {
+		if err := checkMbz("reserved_12", v.Reserved_12, 0x408, 0x800); err != nil {
+			return err
+		}
+	}
 	for i := 0x3F0; i < SizeofVmsa; i++ {
 		data[i] = 0
 	}
